@@ -114,11 +114,11 @@ func callOn(v ssa.Value, fullName string, recv func(ssa.Value) bool) bool {
 func isParam(v ssa.Value, n string) bool {
 	switch x := v.(type) {
 	case *ssa.Parameter:
-		return x.Name() == n
+		return an.ParamName(x) == n
 	case *ssa.UnOp:
 		if x.Op == token.MUL {
 			if a, ok := x.X.(*ssa.Alloc); ok {
-				return a.Comment == n
+				return an.Path(a) == n
 			}
 		}
 	}
